@@ -1,10 +1,12 @@
 import AdaptixModel.Ops.Morph
 import AdaptixModel.Ops.C20
+import AdaptixModel.Ops.Codec
 open Lean in
 def dispatch : Adaptix.Protocol.Handler := fun j =>
   match j.getObjVal? "op" with
   | .ok (Json.str op) =>
     if op == "load_prov" || op == "dump_prov" || op == "load_alloc" || op == "dump_alloc" then Adaptix.Ops.C20.handle j
+    else if op.startsWith "b64_" then Adaptix.Ops.Codec.handle j
     else Adaptix.Ops.Morph.handle j
   | _ => .error "missing op"
 def main : IO Unit := Adaptix.Protocol.serve dispatch
